@@ -68,6 +68,18 @@ def check_roundtrip(case):
         ok, p2 = call(Address, want)
         if not ok or not _addr_eq(p2, wc, acc) or bool(p2.is_bounceable) != bb or bool(p2.is_test_only) != tt:
             return Fail('parse/depends-on-earlier-calls', f'{want}: {p2!r}')
+        # the PARSED object rendered in every variant: the flags asked for decide, not the flags of the text it was parsed from
+        for v2 in range(8):
+            b2, t2, u2 = bool(v2 & 1), bool(v2 & 2), bool(v2 & 4)
+            ok, txt = call(p2.to_str, True, u2, b2, t2)
+            want2 = refaddr.friendly(wc, acc, b2, t2, u2)
+            if not ok or txt != want2:
+                return Fail('to_str/of-parsed-address-differs-from-TEP2',
+                            f'Address({want!r}).to_str(is_user_friendly=True, is_url_safe={u2}, is_bounceable={b2}, is_test_only={t2}) '
+                            f'= {txt!r}, expected {want2}')
+        ok, txt = call(p2.to_str, False)
+        if not ok or txt != refaddr.raw(wc, acc):
+            return Fail('to_str/of-parsed-address-raw-differs', f'Address({want!r}).to_str(False) = {txt!r}')
     return None
 
 
